@@ -35,9 +35,21 @@ pub const INTERPS: &[&str] = &[
 
 #[derive(Clone, Debug, Serialize, Deserialize, PartialEq)]
 pub struct NodeSpec {
-    /// timestamp (seconds since epoch, midnight)
+    /// timestamp (whole seconds since epoch; the curve keys nodes by this)
     pub ts: i64,
     pub num: Num,
+    /// fractional second of the node's datetime as supplied (the key truncates it)
+    #[serde(default)]
+    pub ns: u32,
+}
+
+pub fn node_ndt(n: &NodeSpec) -> NaiveDateTime {
+    let base = ts_to_ndt(n.ts);
+    if n.ns == 0 {
+        base
+    } else {
+        base + chrono::Duration::nanoseconds(n.ns as i64)
+    }
 }
 
 #[derive(Clone, Debug, Serialize, Deserialize, PartialEq)]
@@ -125,6 +137,8 @@ pub fn generate(rng: &mut Rng, tier: Tier) -> Plan {
     let large = n > 20;
     let interp = rng.pick(INTERPS).to_string();
     let intraday = rng.chance(0.15);
+    // node datetimes with a fractional second (the curve keys by whole seconds)
+    let subsecond = rng.chance(0.06);
     // distinct midnight dates between 2000 and 2060 with arbitrary gaps
     let start_day = match rng.below(25) {
         0 => rng.i64_in(-25_000, -200),   // 1901..1969: negative timestamps
@@ -200,6 +214,11 @@ pub fn generate(rng: &mut Rng, tier: Tier) -> Plan {
         nodes.push(NodeSpec {
             ts: d * DAY + if intraday { rng.i64_in(0, DAY - 1) } else { 0 },
             num: gen_num(rng, kind, v, if many_vars { 4 } else { 2 }, prefix),
+            ns: if subsecond && rng.chance(0.5) {
+                rng.below(1_000_000_000) as u32
+            } else {
+                0
+            },
         });
     }
     nodes.sort_by_key(|n| n.ts);
@@ -267,6 +286,7 @@ pub fn generate(rng: &mut Rng, tier: Tier) -> Plan {
             0 => 1.0,
             1 => -rng.log_uniform(50.0, 400.0),
             2 => rng.log_uniform(1e-20, 1e20),
+            3 => *rng.pick(&[0.0, -0.0, 5e-324, f64::MIN_POSITIVE / 4.0]),
             _ => rng.log_uniform(50.0, 400.0),
         }))
     } else {
@@ -445,7 +465,7 @@ pub fn build_with_cal(setup: &Setup, pycal: Option<CalType>) -> Result<Sut, Fail
             let mut m: IndexMap<NaiveDateTime, Number> = IndexMap::new();
             for n in &setup.nodes {
                 m.insert(
-                    ts_to_ndt(n.ts),
+                    node_ndt(n),
                     n.num.to_number().map_err(|e| herr(&e))?,
                 );
             }
@@ -482,7 +502,7 @@ pub fn build_with_cal(setup: &Setup, pycal: Option<CalType>) -> Result<Sut, Fail
                     setup
                         .nodes
                         .iter()
-                        .map(|n| (ts_to_ndt(n.ts), n.num.value())),
+                        .map(|n| (node_ndt(n), n.num.value())),
                 )),
                 1 => {
                     use rateslib::dual::Vars;
@@ -496,7 +516,7 @@ pub fn build_with_cal(setup: &Setup, pycal: Option<CalType>) -> Result<Sut, Fail
                             } else {
                                 d
                             };
-                            m.insert(ts_to_ndt(n.ts), d);
+                            m.insert(node_ndt(n), d);
                         }
                     }
                     Nodes::Dual(m)
@@ -513,7 +533,7 @@ pub fn build_with_cal(setup: &Setup, pycal: Option<CalType>) -> Result<Sut, Fail
                             } else {
                                 d
                             };
-                            m.insert(ts_to_ndt(n.ts), d);
+                            m.insert(node_ndt(n), d);
                         }
                     }
                     Nodes::Dual2(m)
